@@ -85,7 +85,7 @@ CHECKS = {
               "Only list index normalisation is decided. Argument bookkeeping is stubbed (BTree-backed); string and map functions "
               "are outside. Trusted: Kani/CBMC, the powi table, the positional-only ArgumentResult stubs.",
               "bounded model checking (Kani/CBMC) of builtin list functions against the documented index rule"),
-    "C15": _m('Bounded model checking: clamping constructors and opacity functions keep channels integer-valued in [0,255] and alpha in [0,1] for every f64 incl. NaN/inf; the 3-digit hex decision is exact over all 2^24 colours; hex literals of 3/4 (6/8 thorough) arbitrary digits denote the CSS channels (#abc = #aabbcc, #abcd = #aabbccdd); engine F: hue_to_rgb stays in [m1, m2] on a lattice, hence HSL/HWB channels stay in [0,255]; Kani: as_hsla on all 2^24 colours (alpha = alpha() in [0,1], hue/saturation/lightness ranges), from_hwb channels in range (hue path: engine F on the MIR of from_hwb and its closure with the exact fmod; whiteness/blackness path: Kani with a contract stub for fuzzy_round), mix at weight 0/100 returns an operand, invert twice is the identity.',
+    "C15": _m('Bounded model checking: clamping constructors and opacity functions keep channels integer-valued in [0,255] and alpha in [0,1] for every f64 incl. NaN/inf; the 3-digit hex decision is exact over all 2^24 colours; hex literals of 3/4 (6/8 thorough) arbitrary digits denote the CSS channels (#abc = #aabbcc, #abcd = #aabbccdd); engine F: hue_to_rgb stays in [m1, m2] on a lattice, hence HSL/HWB channels stay in [0,255]; Kani: as_hsla on all 2^24 colours (alpha = alpha() in [0,1], hue/saturation/lightness ranges), from_hwb channels in range (hue path: engine F on the MIR of from_hwb and its closure with the exact fmod, and the same for from_hsla; whiteness/blackness path: Kani with a contract stub for fuzzy_round), mix at weight 0/100 returns an operand, invert twice is the identity.',
               "DESIGN.md section 4, C15",
               "Colour-space round trips, named colours and the HSL-based function identities are outside. Trusted: Kani/CBMC's IEEE-754 encoding, engine F's models and translation.",
               'bounded model checking (Kani/CBMC, bit-precise floats) of Color constructors, hex reader/decision; MIR->C->CBMC for hue_to_rgb'),
